@@ -3,13 +3,15 @@ from .C02 import e2_jobs, META as _M
 
 META = dict(_M)
 CLASSES = ["contracts.C13_all:CompositeSystemCaches", "contracts.C13_all:LossObjectReuse", "contracts.C13_all:AlgorithmObjectReuse",
-           "contracts.C13_all:OperatorFrames", "contracts.C13_all:BasisImmutable", "contracts.C13_all:SettingsRoundTrip"]
+           "contracts.C13_all:OperatorFrames", "contracts.C13_all:BasisImmutable", "contracts.C13_all:SettingsRoundTrip",
+           "contracts.C13_all:EqProjectionVarFrame", "contracts.C13_all:IneqProjectionVarFrame", "contracts.C13_all:EqProjectionFrame",
+           "contracts.C13_all:IneqProjectionFrame", "contracts.C13_all:PhysicalProjectionFrame", "contracts.C13_all:EstimatorSequenceNoCarryOver"]
 
 
 def jobs(tier, seed):
     return e2_jobs("C13", CLASSES, tier, seed)
 
 CLAIM = {'engine': 'E2-symtwin', 'level': 'proof',
- 'text': 'Frames: every E2 contract of the other properties compares each argument array symbol by symbol before and after the call (clause frame/<arg>); here the arithmetic operators, copy() (no shared storage), to_var / to_stacked_vector. Caches: every conversion reading a cached CompositeSystem table is proved to give the same symbolic result with tables unbuilt / built / each one (or all) deleted and rebuilt / built in another order, and every built table equals that of a fresh system (representation invariant). Re-use: a loss object (generic and fast, both families) and a projected-gradient algorithm object configured after an unrelated earlier configuration are proved to behave like fresh objects. Matrix bases: independent of the constructor argument, in-place writes raise. Global tolerance round trip.',
+ 'text': 'Frames: every E2 contract of the other properties compares each argument array symbol by symbol before and after the call (clause frame/<arg>); here the arithmetic operators, copy() (no shared storage), to_var / to_stacked_vector. Caches: every conversion reading a cached CompositeSystem table is proved to give the same symbolic result with tables unbuilt / built / each one (or all) deleted and rebuilt / built in another order, and every built table equals that of a fresh system (representation invariant). Re-use: a loss object (generic and fast, both families) and a projected-gradient algorithm object configured after an unrelated earlier configuration are proved to behave like fresh objects. Matrix bases: independent of the constructor argument, in-place writes raise. Global tolerance round trip. The contracts of the constraint projections (C04), of the physical projection (C05: arrays and configuration flags of the projected object) and of the loss-minimisation estimator (every dataset of a sequence, and objects used for another tomography before, behave like fresh ones) are re-checked here for their frame / no-carry-over clauses.',
  'note': 'all-inputs@config (1 qubit; qutrit caches in thorough). The quantifier over ALL interleavings is covered by the representation-invariant argument for the caches (each operation preserves "None or table of the basis") and by configuring from one arbitrary earlier state for loss / algorithm objects, not by enumerating interleavings. Interleavings through code that is not under contract are not covered. Floats as reals.',
  'technique': 'contract-based deductive verification (symbolic execution of the real source -> VCs; frame conditions by snapshot comparison)'}
